@@ -6,6 +6,7 @@ PROP = "C18"
 LEVEL = "fault_enumeration"
 SHARDS = {"quick": 8, "thorough": 16}
 TIMEOUT = {"quick": 900, "thorough": 7200}
+THOROUGH_MULT = 6   # thorough budgets below are multiplied by this (sized for roughly five minutes on 16 cores)
 REQUIRED = {"fault.ckd_priv": 300, "fault.ckd_pub": 200, "fault.master": 30, "fault.bip85": 60, "control": 400, "sequence": 40}
 ANCHORS = ['bip32:PrvKeyNode.ckd', 'bip32:PubKeyNode.ckd', 'bip32:PrvKeyNode.master_key', 'bip85:BIP85DeterministicEntropy.correct_key', 'bip85:BIP85DeterministicEntropy.wif', 'bip85:BIP85DeterministicEntropy.xprv']
 RULE = ("fault classes enumerated completely: CKDpriv (normal and hardened) IL in {n, n+1, 2^256-1, random>=n} and IL = n - k_par "
